@@ -135,8 +135,14 @@ def c11_extra(ctx: Ctx):
             "Conditional(Not(And(Lt(x, 1), Gt(y, 0))), x, y)", "Conditional(Or(Not(Lt(x, y)), Eq(y, 0)), 1, exp(1))", "Not(Eq(x, y))*3", "sqrt(x*x + 1)",
             "Mod(x, 2)*exp(1)", "pi*exp(1)", "Conditional(Ge(x, 0), x**0.5, (-x)**1.5)", "ContinuousConditional(Ge(x, a), exp(1), y, 0.5)", "1/3", "-(1/7)*x"]
     es = [rng.choice(pool) for _ in range(3)]
-    text = (f"states(\"A\", x=ScalarParam({rng.choice(['0.5', '1/3', '2.5e-3'])}, unit=\"mV\", description=\"the x\"), y=1)\n"
-            f"parameters(\"A\", a=ScalarParam(0.25, unit=\"ms**-1\"))\nexpressions(\"A\")\nw = {es[0]} # mV\ndx_dt = w + {es[1]}\ndy_dt = {es[2]}\n")
+    # unit texts: customary ones the unit library knows, and customary ones it does not (the text is what the
+    # file says; it must survive whether or not a unit object could be built from it)
+    units = ["mV", "ms**-1", "uA/uF", "mM", "uF/cm2", "mS/cm2", "per_ms", "unitless", "1", "mol per litre", "%", "degC"]
+    u1, u2, u3 = rng.choice(units), rng.choice(units), rng.choice(units)
+    descs = ["the x", "gate, fast", "100 percent", "a (b) c", "Vm"]
+    text = (f"states(\"A\", x=ScalarParam({rng.choice(['0.5', '1/3', '2.5e-3'])}, unit=\"{u1}\", description=\"{rng.choice(descs)}\"), "
+            f"y=ScalarParam(1, unit=\"{u3}\"))\n"
+            f"parameters(\"A\", a=ScalarParam(0.25, unit=\"{u2}\"))\nexpressions(\"A\")\nw = {es[0]} # mV\ndx_dt = w + {es[1]}\ndy_dt = {es[2]}\n")
     return {"text": text}
 
 
